@@ -99,6 +99,14 @@ LABELLED = [
     ("OverlappingFieldsCanBeMerged", "{ echo(f: {tags: [\"a\", \"b\"]}) echo(f: {tags: [\"b\", \"a\"]}) }"),
     ("OverlappingFieldsCanBeMerged", "{ echo(f: {sub: {min: 1}}) echo(f: {sub: {min: 2}}) }"),
     ("OverlappingFieldsCanBeMerged", "{ echo(id: \"1\") echo(id: 1) }"),
+    # several operations sharing fragments: variable rules are per operation, through every transitively spread fragment, whatever another operation established
+    ("NoUndefinedVariables", "query Full($flag: Boolean!) { ...Left ...Right } query Partial { ...Right } fragment Left on Query { count ...Leaf } "
+                             "fragment Right on Query { me { name } ...Leaf } fragment Leaf on Query { echo @include(if: $flag) }"),
+    ("NoUndefinedVariables", "query Partial { ...Right } query Full($flag: Boolean!) { ...Left ...Right } fragment Leaf on Query { echo @include(if: $flag) } "
+                             "fragment Right on Query { me { name } ...Leaf } fragment Left on Query { count ...Leaf }"),
+    ("NoUnusedVariables", "query One($x: Int) { ...UsesX } query Two($x: Int) { count } fragment UsesX on Query { me { lim(a: $x) } }"),
+    ("VariablesInAllowedPosition", "query A($v: String) { echo(s: $v) } query B($v: Int) { echo(s: $v) }"),
+    ("VariablesInAllowedPosition", "query B($v: Int) { ...E } query A($v: String) { ...E } fragment E on Query { echo(s: $v) }"),
     # the meta fields have a response shape like any other field (String! for __typename), also below a union (hunt H3/9)
     ("OverlappingFieldsCanBeMerged", "{ pet { ... on Dog { x: __typename } ... on Cat { x: lives } } }"),
     ("OverlappingFieldsCanBeMerged", "{ named { ... on Dog { x: __typename } ... on Cat { x: name } } }"),
@@ -113,6 +121,16 @@ VALID_TRICKY = [
     "subscription { __x: tick }",
     "subscription { ...F } fragment F on Subscription { __typename }",
     "{ __me: me { __n: name __typename } }",
+    # several operations: each has its own variables, the same name may be declared with another type, shared fragments are judged per operation
+    "query Full($flag: Boolean!) { ...Left ...Right } query Partial($flag: Boolean!) { ...Right } fragment Left on Query { count ...Leaf } "
+    "fragment Right on Query { me { name } ...Leaf } fragment Leaf on Query { echo @include(if: $flag) }",
+    "query A($v: Int) { me { lim(a: $v) } } query B($v: String) { echo(s: $v) } query C($v: [String!]) { me { lim(tags: $v) } }",
+    "query A($v: Int!) { ...L } query B($v: Int! = 2) { ...L } fragment L on Query { me { lim(a: $v) } }",
+    # conditions on the root field of a subscription, steered by variables, on fields, inline fragments and spreads
+    "subscription S($full: Boolean!) { tick @include(if: $full) }",
+    "subscription S($hide: Boolean = false) { tick @skip(if: $hide) }",
+    "subscription S($full: Boolean!) { ...F @include(if: $full) } fragment F on Subscription { tick }",
+    "subscription S($full: Boolean!) { ... @include(if: $full) { tick } }",
     "{ pet { ... on Dog { x: __typename } ... on Cat { x: __typename } } named { __typename ... on Dog { __typename } } }",
     "mutation { __a: a(n: 1) }",
     "query A($x: Int) { ...L1 } fragment L3 on Query { me { friends(first: $x) { name } } } fragment L2 on Query { ...L3 } fragment L1 on Query { ...L2 }",
